@@ -344,7 +344,7 @@ func (w *world) addChild(parent *models.Item, letter string, from int) {
 	if err := parent.AddChild(newItem(id, letter), models.ItemState(from)); err != nil {
 		panic(err) // postprocessItem panics as well
 	}
-	w.ref.addChild(parent.GetID(), id, urlBase+letter, from)
+	w.ref.addChild(parent.GetID(), id, urlOf(letter), from)
 }
 
 func firstWords(s string, n int) string {
